@@ -38,6 +38,7 @@ impl FecEncoder for RaptorEncoder {
 }
 
 pub struct RaptorDecoder {
+    nb_source_symbols: usize,
     source_block_size: usize,
     decoder: raptor_code::SourceBlockDecoder,
     data: Option<Vec<u8>>,
@@ -51,6 +52,7 @@ impl RaptorDecoder {
             source_block_size
         );
         RaptorDecoder {
+            nb_source_symbols,
             decoder: raptor_code::SourceBlockDecoder::new(nb_source_symbols),
             source_block_size,
             data: None,
@@ -69,6 +71,28 @@ impl FecDecoder for RaptorDecoder {
             encoding_symbol.len(),
             self.source_block_size
         );
+
+        // The Raptor decoder panics if the size of a symbol is not the size that results
+        // from the partitioning of the source block into nb_source_symbols symbols
+        if self.nb_source_symbols == 0 {
+            return;
+        }
+        let long_size = self.source_block_size.div_ceil(self.nb_source_symbols);
+        let small_size = self.source_block_size / self.nb_source_symbols;
+        let nb_long = self.source_block_size - (small_size * self.nb_source_symbols);
+        let is_small = (esi as usize) < self.nb_source_symbols && (esi as usize) >= nb_long;
+        let expected_size = match is_small {
+            true => small_size,
+            false => long_size,
+        };
+        if encoding_symbol.len() != expected_size {
+            log::error!(
+                "Encoding symbol length is {} instead of {}",
+                encoding_symbol.len(),
+                expected_size
+            );
+            return;
+        }
 
         self.decoder.push_encoding_symbol(encoding_symbol, esi)
     }
